@@ -42,6 +42,7 @@ var (
 type Call struct {
 	API  string `json:"api"`
 	Prog int    `json:"prog"`
+	Cfg  int    `json:"cfg"`
 }
 
 type Scenario struct {
@@ -49,6 +50,7 @@ type Scenario struct {
 	Points  []int64         `json:"points"`
 	PointsW []int64         `json:"points_w"`
 	SitePts map[int][]int64 `json:"site_points"`
+	Return  []int64         `json:"return_after"`
 	Targets []int           `json:"targets"`
 	Monitor bool            `json:"monitor"`
 }
@@ -76,10 +78,10 @@ func doCall(c Call) string {
 	p := corpus[c.Prog]
 	switch c.API {
 	case "RunCode":
-		out, err := api.RunCode(api.DefaultConfig(), p.File, p.Src)
+		out, err := api.RunCode(cfgFor(c.Cfg), p.File, p.Src)
 		return fmt.Sprintf("out=%q err=%v", out, err)
 	case "BuildFile":
-		mf, wat, fset, err := api.BuildFile(api.DefaultConfig(), p.File, p.Src)
+		mf, wat, fset, err := api.BuildFile(cfgFor(c.Cfg), p.File, p.Src)
 		return fmt.Sprintf("main=%s wat=%d:%s fset=%d:%s err=%v", mf, len(wat), digest(wat), len(fset), digest(fset), err)
 	case "FormatCode":
 		s, err := api.FormatCode(p.File, p.Src)
@@ -114,7 +116,7 @@ func childMain() {
 		os.Exit(2)
 	}
 	out := &ChildOut{Results: make([][]string, len(sc.Tasks))}
-	plan := &verifsim.Plan{Points: sc.Points, PointsW: sc.PointsW, SitePoints: sc.SitePts}
+	plan := &verifsim.Plan{Points: sc.Points, PointsW: sc.PointsW, SitePoints: sc.SitePts, ReturnAfter: sc.Return}
 	sched := &verifsim.Sched{MaxDecisions: 100000, TrustLast: true}
 	seenHits := 0
 	sched.Choose = func(n, cur int) int {
@@ -271,7 +273,13 @@ func tail(s string, n int) string {
 	return s
 }
 
-func callKey(c Call) string { return c.API + ":" + corpus[c.Prog].Name }
+func callKey(c Call) string {
+	k := c.API + ":" + corpus[c.Prog].Name
+	if c.Cfg != 0 && (c.API == "RunCode" || c.API == "BuildFile") {
+		k += "@" + cfgVariants[c.Cfg]
+	}
+	return k
+}
 
 type sample struct {
 	Tasks  []string `json:"callers"`
@@ -288,6 +296,10 @@ func (e *Engine) Run(t *tape.Tape, keep bool) *sim.Result {
 	var log tape.Log
 	log.Keep = keep
 	nt := 2 + t.Pick(4, 3, 1)
+	// scenario family: 0 = any mix; 1 = callers that clone one shared base
+	// configuration with different targets, on programs whose package set depends
+	// on the target (build tags)
+	cfgMix := t.Draw(3) == 2
 	sc := &Scenario{Monitor: true}
 	sm := &sample{}
 	res.Sample = sm
@@ -296,7 +308,20 @@ func (e *Engine) Run(t *tape.Tape, keep bool) *sim.Result {
 		nc := 1 + t.Draw(2)
 		var calls []Call
 		for j := 0; j < 2; j++ {
-			c := Call{API: apis[t.Pick(2, 6, 2, 1)], Prog: t.Draw(len(corpus))}
+			c := Call{API: apis[t.Pick(2, 6, 2, 1)], Prog: t.Draw(len(corpus)), Cfg: t.Pick(2, 1, 1)}
+			tagged := taggedProgs[t.Draw(len(taggedProgs))]
+			if cfgMix {
+				c.Cfg = 1 + (i+j)%2
+				if c.API == "FormatCode" || c.API == "GetCodeSyntax" {
+					c.API = "BuildFile"
+				}
+				if (i+j)%2 == 0 || t.Draw(2) == 1 {
+					c.Prog = tagged
+				}
+			}
+			if c.API == "RunCode" && c.Cfg == 1 {
+				c.Cfg = 0 // the embedded runner executes the default and the "unknown" targets
+			}
 			if j < nc {
 				calls = append(calls, c)
 			}
@@ -312,6 +337,23 @@ func (e *Engine) Run(t *tape.Tape, keep bool) *sim.Result {
 		}
 	}
 	d := []int{0, 1, 2, 3, 5, 10}[t.Pick(1, 3, 3, 2, 2, 1)]
+	// sweep mode (two draws, always consumed): a fixed two-caller scenario in which
+	// ONE rarely executed lock-boundary site (the points right before Lock / right
+	// after Unlock of mutexes taken a few times per call) is pre-empted at a chosen
+	// occurrence and the interrupted caller comes back after a chosen fraction of
+	// the other caller's work. The space is small (tens of combinations), so a
+	// batch covers it almost completely instead of hoping to hit a one-statement
+	// window by chance.
+	sweep := t.Draw(2) == 1
+	sweepPick := t.Draw(1 << 12)
+	if sweep {
+		pa, pb := 0, 1+(sweepPick%2)*2 // hello_a with strings_b or iface_d: few scenarios, so baselines are cached
+		sc.Tasks = [][]Call{{{API: "BuildFile", Prog: pa}}, {{API: "BuildFile", Prog: pb}}}
+		sm.Tasks = []string{callKey(sc.Tasks[0][0]), callKey(sc.Tasks[1][0])}
+		keyParts = []string{"sweep", sm.Tasks[0], sm.Tasks[1]}
+		d = 1
+		res.Probes["lock_window_sweep_runs"]++
+	}
 	sm.D = d
 	var fracs []int
 	var targets []int
@@ -320,6 +362,10 @@ func (e *Engine) Run(t *tape.Tape, keep bool) *sim.Result {
 		fracs = append(fracs, t.Draw(1<<16))
 		targets = append(targets, t.Draw(8))
 		classW = append(classW, t.Draw(3)) // 0 any yield, 1 any interesting yield, 2 a random occurrence of a random interesting site
+	}
+	var returns []int64
+	for i := 0; i < 10; i++ {
+		returns = append(returns, []int64{0, 3, 50, 2000, 60000, 400000}[t.Draw(6)])
 	}
 	log.Add(fmt.Sprintf("tasks=%v d=%d", sm.Tasks, d))
 	fail := func(class, sig, detail string) *sim.Result {
@@ -365,7 +411,7 @@ func (e *Engine) Run(t *tape.Tape, keep bool) *sim.Result {
 	}
 	nw := e.calibW[skey]
 	sm.Yields = n
-	if d == 0 {
+	if d == 0 && !sweep {
 		res.Steps++
 		res.Digest = log.Digest()
 		res.States = append(res.States, skey)
@@ -373,6 +419,37 @@ func (e *Engine) Run(t *tape.Tape, keep bool) *sim.Result {
 	}
 	var pts, ptsW []int64
 	sitePts := map[int][]int64{}
+	if sweep {
+		// rare lock sites of this scenario, in site order
+		type pair struct {
+			sid int
+			k   int64
+		}
+		var pairs []pair
+		var ids []int
+		for sid := range e.calibS[skey] {
+			ids = append(ids, sid)
+		}
+		sort.Ints(ids)
+		for _, sid := range ids {
+			cnt := e.calibS[skey][sid]
+			if sid < len(e.sites) && e.sites[sid].Kind == "lock" && cnt <= 8 {
+				for k := int64(1); k <= cnt; k++ {
+					pairs = append(pairs, pair{sid, k})
+				}
+			}
+		}
+		if len(pairs) > 0 {
+			pr := pairs[(sweepPick/25)%len(pairs)]
+			sitePts[pr.sid] = []int64{pr.k}
+			frac := []int64{2, 4, 5, 6, 7}[(sweepPick/25/len(pairs))%5]
+			returns = []int64{n / 2 * frac / 8}
+			targets = []int{1, 0, 1, 0, 1, 0, 1, 0, 1, 0}
+			sm.Sites = append(sm.Sites, fmt.Sprintf("sweep: %s occurrence %d, return after %d yields", e.sitePos(pr.sid), pr.k, returns[0]))
+			res.Probes["lock_window_pairs_in_scenario"] = len(pairs)
+		}
+		d = 0
+	}
 	var wsites []int
 	for sid := range e.calibS[skey] {
 		wsites = append(wsites, sid)
@@ -386,6 +463,22 @@ func (e *Engine) Run(t *tape.Tape, keep bool) *sim.Result {
 			k := 1 + int64(fracs[i]/len(wsites))%cnt
 			sitePts[sid] = append(sitePts[sid], k)
 			res.Probes["preemptions_placed_by_site"]++
+			// lock boundaries are the classic windows: half of the site-placed points go there
+			if fracs[i]%2 == 1 {
+				var locks []int
+				for _, x := range wsites {
+					if x < len(e.sites) && e.sites[x].Kind == "lock" {
+						locks = append(locks, x)
+					}
+				}
+				if len(locks) > 0 {
+					delete(sitePts, sid)
+					sid = locks[(fracs[i]/2)%len(locks)]
+					cnt = e.calibS[skey][sid]
+					sitePts[sid] = append(sitePts[sid], 1+int64(fracs[i]/7)%cnt)
+					res.Probes["preemptions_placed_at_lock_boundary_site"]++
+				}
+			}
 		} else if classW[i] == 1 && nw > 0 {
 			// placed over the interesting yields only: writes of package-level
 			// variables and the boundaries of critical sections
@@ -400,6 +493,7 @@ func (e *Engine) Run(t *tape.Tape, keep bool) *sim.Result {
 	sc.Points = pts
 	sc.PointsW = ptsW
 	sc.SitePts = sitePts
+	sc.Return = returns
 	sc.Targets = targets
 	co, trouble := e.child(sc)
 	res.Steps++
